@@ -289,6 +289,7 @@ async def _scenario(case, tmp, obs):
             if nsess > 1:
                 shared["obj"] = t
             async with t:
+                t.set_protocol_version("2025-06-18")      # what a host does after the handshake
                 yield await t.get_streams()
         elif api == "with_initialize":
             from chuk_mcp.transports.stdio.stdio_client import stdio_client_with_initialize
